@@ -74,6 +74,7 @@ func init() {
 		"Skip", "skipstr", "skipType"} {
 		fnSpecs = append(fnSpecs, fnSpec{"protocol/thrift", "BufferReader", n, "BR_" + n})
 	}
+	fnSpecs = append(fnSpecs, fnSpec{"protocol/thrift", "SkipDecoderTpl", "Skip", "Tpl_Skip"})
 	fnSpecs = append(fnSpecs, fnSpec{"protocol/thrift/base", "BaseResp", "FastRead", "BaseResp_FastRead"})
 	fnSpecs = append(fnSpecs, fnSpec{"protocol/thrift/base", "Base", "FastRead", "Base_FastRead"})
 	for _, n := range []string{"appendUint32", "appendUint64"} {
@@ -224,21 +225,28 @@ func structOf(t types.Type) (*types.Named, *types.Struct, bool) {
 	return n, st, true
 }
 
-// ifaceRecv: t is a pointer to a struct whose only field is a bufiox.Reader interface value; returns the field name
+// ifaceRecv: t is a (pointer to a) struct whose only field is an interface value the translator knows: a bufiox.Reader
+// (kind "ReaderI") or a type parameter constrained by an interface with the single method SkipN (kind "SkipNI").
+// Returns the kind.
 func ifaceRecv(t types.Type) (string, bool) {
-	p, ok := t.Underlying().(*types.Pointer)
-	if !ok {
-		return "", false
+	if p, ok := t.Underlying().(*types.Pointer); ok {
+		t = p.Elem()
 	}
-	st, ok := p.Elem().Underlying().(*types.Struct)
+	st, ok := t.Underlying().(*types.Struct)
 	if !ok || st.NumFields() != 1 {
 		return "", false
 	}
-	n, ok := st.Field(0).Type().(*types.Named)
-	if !ok || n.Obj().Pkg() == nil || n.Obj().Pkg().Path() != mod+"bufiox" || n.Obj().Name() != "Reader" {
-		return "", false
+	switch ft := st.Field(0).Type().(type) {
+	case *types.Named:
+		if ft.Obj().Pkg() != nil && ft.Obj().Pkg().Path() == mod+"bufiox" && ft.Obj().Name() == "Reader" {
+			return "ReaderI", true
+		}
+	case *types.TypeParam:
+		if it, ok := ft.Constraint().Underlying().(*types.Interface); ok && it.NumMethods() == 1 && it.Method(0).Name() == "SkipN" {
+			return "SkipNI", true
+		}
 	}
-	return st.Field(0).Name(), true
+	return "", false
 }
 
 func structLeanName(n *types.Named) string { return "S_" + n.Obj().Pkg().Name() + "_" + n.Obj().Name() }
@@ -2081,6 +2089,11 @@ func (f *fctx) callMulti(b *blk, call *ast.CallExpr, n int) []string {
 					b.add(fmt.Sprintf("let %s ← I.skip %s %s", t, rn, atom(a)))
 					b.add(fmt.Sprintf("let %s := %s.2", rn, t))
 					return []string{t + ".1"}
+				case "SkipN":
+					a := f.expr(b, call.Args[0])
+					b.add(fmt.Sprintf("let %s ← I.skipN %s %s", t, rn, atom(a)))
+					b.add(fmt.Sprintf("let %s := %s.2", rn, t))
+					return []string{t + ".1.1", t + ".1.2"}
 				case "ReadLen":
 					return []string{fmt.Sprintf("I.readLen %s", rn)}
 				case "ReadBinary":
@@ -2113,6 +2126,7 @@ func (f *fctx) callMulti(b *blk, call *ast.CallExpr, n int) []string {
 	if callee == nil {
 		f.fail(call, "call of %s not supported", f.src(call.Fun))
 	}
+	callee = callee.Origin()
 	ci := f.t.all[callee]
 	if ci == nil {
 		f.fail(call, "call of %s, which is not a translated function", callee.FullName())
@@ -2319,8 +2333,10 @@ func (t *ftr) prepare(fi *fnInfo) {
 				fi.selfrec = true
 			}
 			if se, ok := stripParens(c.Fun).(*ast.SelectorExpr); ok {
-				if sel, ok := fi.pk.TypesInfo.Selections[se]; ok && sel.Obj() == types.Object(fi.obj) {
-					fi.selfrec = true
+				if sel, ok := fi.pk.TypesInfo.Selections[se]; ok {
+					if fo, ok := sel.Obj().(*types.Func); ok && fo.Origin() == fi.obj {
+						fi.selfrec = true
+					}
 				}
 			}
 		}
@@ -2445,7 +2461,8 @@ func (t *ftr) translate(fi *fnInfo) {
 	var gparams []string
 	var gargs []string
 	if fi.iface {
-		gparams = append(gparams, "{ρ : Type} (I : ReaderI ρ)")
+		kind, _ := ifaceRecv(fi.recv.Type())
+		gparams = append(gparams, "{ρ : Type} (I : "+kind+" ρ)")
 		gargs = append(gargs, "I")
 	}
 	for _, g := range fi.globals {
